@@ -14,6 +14,7 @@ RULE = (
     "p / J-bar values for mixed wrappers, and the out= mode. Oracle: central finite differences (h = 1e-6) of the "
     "energy (where exposed) and of the returned stress at fixed stored state; all nine mixed blocks. Non-trivial: "
     "|F - I| >= 0.05 and J != 1; for history models a non-virgin state."
+    ' Added later: a NearlyIncompressible wrapper with a user-supplied non-quadratic volumetric law; coaxial histories (directional derivatives along the principal stretches at full tolerance).'
 )
 ASSUMPTIONS = [
     "finite-difference oracle resolves relative errors >= 1e-6 (2e-5 for MORPH models: abs() kinks + 1e-6 regularisation)",
